@@ -110,6 +110,21 @@ Theorem C06_aborted_command_leaves_other_commands_tasks_untouched : forall f x H
   forall c', c_ent (gcmd c' H') = c_ent (gcmd c' H) \/ c_ent (gcmd c' H') = [].
 Proof. exact TaskRelease.aborted_settle_contained. Qed.
 
+(* ... and neither ever adds to, reorders or takes from the OUTPUT queues of any other command: each other command's
+   event and effect queue is left exactly as it was, or (a command dropped on the way) emptied.  Together with
+   C06_aborted_outputs_only_shrink_* (the cancelled command's own queues only shrink): cancellation processing produces
+   no output anywhere and disturbs no sibling's output. *)
+Theorem C06_cancelled_task_leaves_other_commands_outputs_untouched : forall cid s t H c',
+  c' <> cid ->
+  (c_evs (gcmd c' (finish_task cid s t H)) = c_evs (gcmd c' H) /\ c_eff (gcmd c' (finish_task cid s t H)) = c_eff (gcmd c' H)) \/
+  (c_evs (gcmd c' (finish_task cid s t H)) = [] /\ c_eff (gcmd c' (finish_task cid s t H)) = []).
+Proof. exact TaskRelease.finish_task_outputs_contained. Qed.
+Theorem C06_aborted_command_leaves_other_commands_outputs_untouched : forall f x H H',
+  was_aborted x H = true -> settle (S f) x H = Some H' ->
+  forall c', c' <> x ->
+  (c_evs (gcmd c' H') = c_evs (gcmd c' H) /\ c_eff (gcmd c' H') = c_eff (gcmd c' H)) \/ (c_evs (gcmd c' H') = [] /\ c_eff (gcmd c' H') = []).
+Proof. exact TaskRelease.aborted_settle_outputs_contained. Qed.
+
 (* The trace predicate that the check evaluates on the implementation holds of EVERY trace of the
    model: for every command, every schedule (late and repeated resolutions, drops, further aborts, tasks
    spawned onto the aborted command, any number of inspections) and every positive fuel, once the
